@@ -206,6 +206,33 @@ func grayRow(mod []bool, quiet, scale, height int) *image.Gray {
 }
 
 // BuildOps draws n operations over all symbologies.
+var ambOnce sync.Once
+var ambNums []string
+
+// AmbiguousUPCA returns UPC-A numbers (12 digits) whose symbol the EAN-8 decoder ALONE also accepts
+// (it finds a start guard, four L digits, a centre guard, four R digits and a verifying check digit
+// inside the longer symbol; about 2 in 1000 numbers).  Which decoder of the multi-format reader
+// is asked first decides what such a symbol is read as, so these are the inputs on which any
+// memory of earlier reads would show.  The list is found by a fixed-seed search, the same in
+// every process.
+func AmbiguousUPCA() []string {
+	ambOnce.Do(func() {
+		r := fw.NewRand(0xA3B1600D)
+		for i := 0; i < 40000 && len(ambNums) < 16; i++ {
+			d := digits(r, 11)
+			if i%2 == 0 {
+				d = "000" + d[3:]
+			}
+			full := d + fmt.Sprint(onedref.Mod10(d))
+			bmp, _ := gozxing.NewBinaryBitmapFromImage(grayRow(onedref.UPCAPattern(full), 12, 1, 1))
+			if _, err := oned.NewEAN8Reader().Decode(bmp, nil); err == nil {
+				ambNums = append(ambNums, full)
+			}
+		}
+	})
+	return ambNums
+}
+
 func BuildOps(r *fw.Rand, n int) []Op {
 	ops := make([]Op, 0, n)
 	for len(ops) < n {
@@ -472,8 +499,20 @@ func BuildOps(r *fw.Rand, n int) []Op {
 		case k < 20: // reference-built UPC/EAN rows with 2- and 5-digit add-ons, read under the shared hints map
 			var main []bool
 			var rd func() gozxing.Reader
-			kind := r.Intn(4)
+			kind := r.Intn(7)
+			apriori := ""
 			switch kind {
+			case 4: // EAN-8 through the multi-format reader
+				d := digits(r, 7)
+				main, rd = onedref.EAN8Pattern(d+fmt.Sprint(onedref.Mod10(d))), func() gozxing.Reader { return oned.NewMultiFormatUPCEANReader(nil) }
+			case 5, 6: // a UPC-A symbol that the EAN-8 decoder alone would accept too, through the multi-format reader
+				amb := AmbiguousUPCA()
+				if len(amb) == 0 {
+					continue
+				}
+				full := amb[r.Intn(len(amb))]
+				apriori = "0" + full
+				main, rd = onedref.UPCAPattern(full), func() gozxing.Reader { return oned.NewMultiFormatUPCEANReader(nil) }
 			case 0:
 				d := digits(r, 12)
 				main, rd = onedref.EAN13Pattern(d+fmt.Sprint(onedref.Mod10(d))), oned.NewEAN13Reader
@@ -488,7 +527,7 @@ func BuildOps(r *fw.Rand, n int) []Op {
 				main, rd = onedref.EAN13Pattern(d+fmt.Sprint(onedref.Mod10(d))), func() gozxing.Reader { return oned.NewMultiFormatUPCEANReader(nil) }
 			}
 			var addon []bool
-			switch r.Intn(3) {
+			switch r.Intn(3) + minI(len(apriori), 1)*3 {
 			case 0:
 				v := r.Intn(100)
 				addon = onedref.EAN2AddOn(v, v)
@@ -504,7 +543,7 @@ func BuildOps(r *fw.Rand, n int) []Op {
 				pat = append(pat, addon...)
 			}
 			scale, height := 1+r.Intn(3), 1+r.Intn(12)
-			flip := r.Intn(3) == 0
+			flip := r.Intn(3) == 0 && apriori == ""
 			ops = append(ops, Op{"upcean+addon", func() string {
 				img := grayRow(pat, 12, scale, height)
 				bmp, _ := gozxing.NewBinaryBitmapFromImage(img)
@@ -513,6 +552,10 @@ func BuildOps(r *fw.Rand, n int) []Op {
 					bmp, _ = bmp.RotateCounterClockwise()
 				}
 				res, err := rd().Decode(bmp, SharedHints)
+				if apriori != "" && (err != nil || res.GetText() != apriori) {
+					// what this read returns when it is the only thing the process does is known beforehand
+					return fmt.Sprintf("APRIORI-MISMATCH upcean+addon kind %d flip %v: run alone this read returns %s, here -> %s", kind, flip, apriori, canon(res, err))
+				}
 				return fmt.Sprintf("upcean+addon kind %d flip %v -> %s", kind, flip, canon(res, err))
 			}})
 		default: // grid sampler + binarisers + ECI lookups on private data
@@ -627,6 +670,12 @@ func Round(r *fw.Rand, k, procs, opsPerG int) (diverged string, nops int, names 
 	for g := 0; g < k; g++ {
 		for j, oi := range plan[g] {
 			nops++
+			if strings.HasPrefix(got[g][j], "APRIORI-MISMATCH") && diverged == "" {
+				diverged = fmt.Sprintf("goroutine %d op %s: %s", g, ops[oi].Name, clip(got[g][j]))
+			}
+			if strings.HasPrefix(want[oi], "APRIORI-MISMATCH") && diverged == "" {
+				diverged = fmt.Sprintf("sequential pass, op %s: %s", ops[oi].Name, clip(want[oi]))
+			}
 			if got[g][j] != want[oi] && diverged == "" {
 				diverged = fmt.Sprintf("goroutine %d op %s: concurrent result %q, sequential result %q", g, ops[oi].Name, clip(got[g][j]), clip(want[oi]))
 			}
